@@ -514,7 +514,7 @@ def main(tier):
     rep = Report("C08", tier, "model_checking")
     quick = tier == "quick"
     variant = "ossl-asan" if quick else "ossl-plain"
-    deadline = time.time() + (170 if quick else 1700)
+    deadline = time.time() + (600 if quick else 1700)
     cnt, samples = {}, []
     # ---- part A
     ex = Explorer(C08A(), variant=variant)
